@@ -490,3 +490,35 @@ def run(prog: Program, res: Result) -> None:  # noqa: PLR0912, PLR0915
     from checks.shared import check_presence_by_key
 
     check_presence_by_key(prog, res, "C16.R6")
+
+    # ------------------------------------------------------------------ R9 an undefined left operand never reaches code that does not know the protocol
+    res.rule("C16.R9", "under the default policy a missing variable behaves as nil in every filter: a registered filter hands its left operand, as it arrived, only to liquid2's own coercions (which implement the undefined protocol) or to Python's generic conversions - never to a stdlib/third-party function that dispatches on the argument's type (json.dumps, base64, re, …) unless an is_undefined() test on that operand precedes it")
+    generic = {"str", "len", "iter", "isinstance", "bool", "repr", "type", "id", "hash", "list", "tuple", "reversed", "enumerate", "getitem", "is_undefined", "hasattr", "callable", "print", "sorted", "min", "max", "sum", "any", "all", "zip", "map", "filter", "int", "float"}
+    n9 = 0
+    for fname, fns in sorted(prog.filter_callables().items()):
+        for f in fns:
+            params = [p for p in f.params() if p != "self"]
+            if not params:
+                continue
+            left = params[0]
+            tested = any(isinstance(c, ast.Call) and isinstance(c.func, ast.Name) and c.func.id == "is_undefined" and c.args and norm(c.args[0]) == left for c in ast.walk(f.node))
+            rebound = any(isinstance(a, ast.Assign) and any(isinstance(t, ast.Name) and t.id == left for t in a.targets) for a in ast.walk(f.node))
+            wrapped = [norm(d) for d in f.node.decorator_list if any(k in norm(d) for k in ("string_filter", "sequence_filter", "math_filter", "array_filter", "liquid_filter", "unit_filter"))]
+            for c in ast.walk(f.node):
+                if not (isinstance(c, ast.Call) and any(isinstance(a, ast.Name) and a.id == left for a in c.args)):
+                    continue
+                q = prog.resolve(f.module, dotted(c.func) or "") if dotted(c.func) else None
+                callee = dotted(c.func) or norm(c.func, 40)
+                if isinstance(c.func, ast.Name) and c.func.id in generic:
+                    continue
+                foreign = isinstance(q, str) and not q.startswith("liquid2")  # resolves to a module outside the package
+                if not foreign:
+                    continue
+                n9 += 1
+                site = f"{f.file}:{c.lineno} {f.qualname}"
+                what = f"filter `{fname}`: `{left}` reaches {callee}() only after the undefined protocol had its say"
+                if wrapped or tested or rebound:
+                    res.ok("C16.R9", site, what, "coercing decorator" if wrapped else ("is_undefined() test on the operand" if tested else "operand re-bound through a coercion first"))
+                else:
+                    res.fail("C16.R9", file=f.file, line=c.lineno, qualname=f.qualname, construct=f"filter {fname}: left operand handed to {callee}() without an undefined test", message=f"filter `{fname}` passes its left operand straight to {callee}(), which knows nothing of Undefined: under the default policy `{{{{ missing | {fname} }}}}` raises a type error where `{{{{ nil | {fname} }}}}` renders - a missing variable does not behave as nil", what=what)
+    res.floor("C16.R9", "left operands handed to functions outside liquid2", n9, 1)
